@@ -26,19 +26,61 @@ func callsMethod(fd *ast.FuncDecl, name string) bool {
 	return found
 }
 
-func genChannel(c *Ctx) (string, error) {
-	fd := c.FuncDecl("channel", "maybeTruncate")
-	if fd == nil {
-		return "", fmt.Errorf("method channel.maybeTruncate not found")
+// recvName returns the receiver type name of a method declaration ("" for functions).
+func recvName(fd *ast.FuncDecl) string {
+	if fd.Recv == nil || len(fd.Recv.List) != 1 {
+		return ""
 	}
-	var ts *ast.TypeSwitchStmt
-	for _, st := range fd.Body.List {
-		if t, ok := st.(*ast.TypeSwitchStmt); ok {
-			ts = t
+	t := fd.Recv.List[0].Type
+	if s, ok := t.(*ast.StarExpr); ok {
+		t = s.X
+	}
+	if id, ok := t.(*ast.Ident); ok {
+		return id.Name
+	}
+	return ""
+}
+
+// findTruncate locates the truncation method by what it is, not by what it is called: the one
+// method of channel (other than ReadFcall/WriteFcall) whose body has a top-level type switch
+// with an arm for MessageTread.
+func findTruncate(c *Ctx) (*ast.FuncDecl, *ast.TypeSwitchStmt, error) {
+	var hit *ast.FuncDecl
+	var hitTS *ast.TypeSwitchStmt
+	for _, f := range c.Files {
+		for _, d := range f.Decls {
+			fd, ok := d.(*ast.FuncDecl)
+			if !ok || fd.Body == nil || recvName(fd) != "channel" || fd.Name.Name == "ReadFcall" || fd.Name.Name == "WriteFcall" {
+				continue
+			}
+			for _, st := range fd.Body.List {
+				ts, ok := st.(*ast.TypeSwitchStmt)
+				if !ok {
+					continue
+				}
+				for _, a := range ts.Body.List {
+					for _, e := range a.(*ast.CaseClause).List {
+						if tv, ok := c.Info.Types[e]; ok && strings.TrimPrefix(typeName(tv.Type), "*") == "MessageTread" {
+							if hit != nil && hit != fd {
+								return nil, nil, fmt.Errorf("two methods of channel switch on MessageTread: %s and %s", hit.Name.Name, fd.Name.Name)
+							}
+							hit, hitTS = fd, ts
+						}
+					}
+				}
+			}
 		}
 	}
-	if ts == nil {
-		return "", fmt.Errorf("maybeTruncate: no top-level type switch")
+	if hit == nil {
+		return nil, nil, fmt.Errorf("no method of channel has a top-level type switch with a MessageTread arm (the truncation step)")
+	}
+	return hit, hitTS, nil
+}
+
+func genChannel(c *Ctx) (string, error) {
+	fd, ts, err := findTruncate(c)
+	if err != nil {
+		return "", err
 	}
 	var arms []string
 	hasDefault := false
@@ -65,7 +107,7 @@ func genChannel(c *Ctx) (string, error) {
 	b.WriteString("From Coq Require Import List String.\nImport ListNotations.\nOpen Scope string_scope.\n\n")
 	fmt.Fprintf(&b, "Definition gen_truncate_arms : list string := %s.\n", coqStrs(arms))
 	fmt.Fprintf(&b, "Definition gen_truncate_has_default : bool := %v.\n", hasDefault)
-	fmt.Fprintf(&b, "Definition gen_readfcall_truncates : bool := %v.\n", callsMethod(rf, "maybeTruncate"))
-	fmt.Fprintf(&b, "Definition gen_writefcall_truncates : bool := %v.\n", callsMethod(wf, "maybeTruncate"))
+	fmt.Fprintf(&b, "Definition gen_readfcall_truncates : bool := %v.\n", callsMethod(rf, fd.Name.Name))
+	fmt.Fprintf(&b, "Definition gen_writefcall_truncates : bool := %v.\n", callsMethod(wf, fd.Name.Name))
 	return b.String(), nil
 }
